@@ -14,6 +14,9 @@ ASSUMPTIONS = [
     "several entries for one price inside one update: any application order among equal prices is allowed "
     "(OrderBook::new sorts with an unstable sort) - DESIGN 5.4",
     "time_engine is not part of the property and is not compared",
+    "manager mode: the stream interleaves L2 events addressed to a second instrument and to an unknown one; scenarios alternate "
+    "between OrderBookMapSingle (only this book configured) and OrderBookMapMulti (both configured: the other book must follow "
+    "exactly its own events); an event that is not this book's own may only be OrderBook!ManagerSkip",
     "manager mode: the manager runs on its own thread; at random events a consumer of the shared map holds a read lock on the "
     "book for ~4 ms while the event arrives (waiting for the manager is bounded by 60 s wall clock = tool error, never a verdict)",
     "prices / amounts are small integers times a per-scenario power of ten (1e-8 .. 1e3); volume weighted mid "
@@ -28,6 +31,8 @@ def levels_ok(v):
 
 def anomaly(line):
     post = line.get("post")
+    if isinstance(post, dict) and "anomaly" in post:
+        return "manager: %s" % post["anomaly"]
     if not isinstance(post, dict) or "panic" in post:
         return "the call panicked: %s" % (post.get("panic") if isinstance(post, dict) else post)
     for k in INT_FIELDS:
@@ -52,7 +57,7 @@ def classify(line):
     for d, k in ((0, "d0"), (1, "d1"), (2, "d2"), (99, "dL")):
         if p[k]["bids"] != p["bids"][:d] or p[k]["asks"] != p["asks"][:d] or p[k]["seq"] != p["seq"]:
             return "depth-snapshot"
-    if line["a"] != "Noop" and p["seq"] != line["s"]:
+    if line["a"] != "Noop" and line.get("inst", "own") == "own" and p["seq"] != line["s"]:
         return "sequence"
     bb, ba = (p["bids"] or [None])[0], (p["asks"] or [None])[0]
     if bb and ba:
@@ -69,9 +74,15 @@ def classify(line):
 
 
 def scenario_of(seg):
+    """Replayable scenario of a trace segment: this book's own events (the manager mode adds events of other
+    instruments again, seeded) and the map flavour the manager ran with."""
     r = seg[0]
-    return {"init": {"bids": r["bl"], "asks": r["al"], "seq": r["s"]},
-            "steps": [{"ev": {"k": l["a"], "b": l["bl"], "a": l["al"], "s": l["s"]}} for l in seg[1:] if l["a"] != "Noop"]}
+    scn = {"init": {"bids": r["bl"], "asks": r["al"], "seq": r["s"]},
+           "steps": [{"ev": {"k": l["a"], "b": l["bl"], "a": l["al"], "s": l["s"]}} for l in seg[1:]
+                     if l["a"] != "Noop" and l.get("inst", "own") == "own"]}
+    if r.get("map"):
+        scn["map"] = r["map"]
+    return scn
 
 
 def validate(ctx, trace_path, mode, label):
@@ -87,11 +98,12 @@ def validate(ctx, trace_path, mode, label):
         seg = ctx.segment(keep, b)
         line = keep[b - 1]
         pre = seg[-2]["post"] if len(seg) >= 2 else None
-        ev = {k: line.get(k) for k in ("a", "bl", "al", "s")}
+        ev = {k: line.get(k) for k in ("a", "inst", "bl", "al", "s")}
         desc = "book bids=%s asks=%s seq=%s, event %s -> observed %s is not the view of a book OrderBook allows [%s, line %d]" % (
             json.dumps(pre["bids"]) if pre else "?", json.dumps(pre["asks"]) if pre else "?", pre["seq"] if pre else "?",
             json.dumps(ev), json.dumps(line["post"]), label, b)
-        ctx.violation("trace:%s:%s" % (line.get("a"), classify(line)), desc, {"mode": mode, "scenario": scenario_of(seg)})
+        whom = "" if line.get("inst", "own") in ("own", "none") else "@" + line["inst"] + "-instrument"
+        ctx.violation("trace:%s%s:%s" % (line.get("a"), whom, classify(line)), desc, {"mode": mode, "scenario": scenario_of(seg)})
     ctx.cov["traces_validated_against_impl"] += sum(1 for l in keep if l.get("a") == "Reset")
     return n
 
